@@ -110,6 +110,7 @@ def handler (prop : String) : Handler := fun op args impl =>
   | some m =>
     let (o, t) := match prop with
       | "C13" => oracleC13 op args impl
+      | "C17" => oracleC17 args impl
       | _ => ("na", "")
     some (m, o, t)
 
